@@ -5,21 +5,25 @@ BL = "StringDictionaryHASHRPDACBlocks.cpp"
 MUTANTS = [
     # id, property, file, old, new, note
     ("M1", "C10", W, "      queue.add_task(task);\n    }\n    queue_cv.notify_all();", "      queue.add_task(task);\n    }", "add_task never notifies"),
-    ("M2", "C10", W, "        w->stop();\n    }\n    queue_cv.notify_all();", "        w->stop();\n    }\n    queue_cv.notify_one();", "stop notifies one worker only"),
-    ("M3", "C10", W, "queue_cv.wait(ul, [this]() { return stopped() || !queue.empty(); });", "if (!(stopped() || !queue.empty())) queue_cv.wait(ul);", "wait without predicate loop"),
+    ("M2", "C10", W, "        w->stop();\n    }\n    queue_cv.notify_all();", "        w->stop();\n    }\n    queue_cv.notify_one();", "stop notifies one worker only, and exiting workers do not pass it on"),
+    ("M3", "C10", W, "queue_cv.wait(ul, [this]() { return stopped() || !queue.empty(); });", "if (!ready) queue_cv.wait(ul);", "predicate evaluated before taking shared_mutex"),
     ("M4", "C10", W, "      if (queue.empty())\n        continue;\n      auto task = queue.pop();\n      ul.unlock();", "      ul.unlock();\n      if (queue.empty())\n        continue;\n      auto task = queue.pop();", "pop outside shared_mutex"),
     ("M5", "C10", W, "      if (stopped() && queue.empty())\n        break;", "      if (stopped())\n        break;", "worker exits on stop with tasks queued"),
     ("M5b", "C10", W, "    while (!stopped() || !queue.empty()) {", "    while (!stopped()) {", "loop head ignores queue after stop"),
     ("M0", "C10", W, "    {\n      std::lock_guard lg(shared_mutex);\n      queue.add_task(task);\n    }", "    queue.add_task(task);", "revert of the lost wake-up fix (add_task)"),
     ("M0b", "C10", W, "    {\n      std::lock_guard lg(shared_mutex);\n      for (auto &w : workers)\n        w->stop();\n    }", "    for (auto &w : workers)\n      w->stop();", "revert of the lost wake-up fix (stop)"),
-    ("M6", "C09", BL, "        next_part_index = parts.size();\n        parts.push_back(nullptr);", "        next_part_index = parts.size();", "no slot reservation ..."),
-    ("M7", "C09", BL, "return parts_done == parts.size();", "return parts_done >= 1 || parts.size() == 0;", "final wait weakened"),
-    ("M8", "C09", BL, "return parts_done == parts.size(); });\n  wpool.stop_all_workers();", "return parts_done + 1 >= parts.size(); });\n  wpool.stop_all_workers();", "final wait off by one (pool still drains before join)"),
+    ("M6", "C09", BL, "              parts[next_part_index] = sd;", "              parts[parts_done] = sd;", "blocks stored in completion order instead of the reserved slot"),
+    ("M7", "C09", BL, "      starting_indexes.push_back(strings_qty);\n", "      first_id = strings_qty;\n", "starting index pushed from the worker, in completion order"),
+    ("M8", "C09", BL, "new StringDictionaryHASHRPDAC(sub_it, 0, overhead);\n            {", "new StringDictionaryHASHRPDAC(sub_it, 0, overhead + (int)parts_done);\n            {", "block parameter read from shared progress counter"),
     ("M9", "C11", BL, "              std::lock_guard lg(m);\n              parts[next_part_index] = sd;", "              parts[next_part_index] = sd;", "completion lambda without lock"),
     ("M10", "C11", W, "  bool stopped() {\n    std::lock_guard lg(mutex_stop);", "  bool stopped() {", "stopped() reads flag without lock"),
     ("M11", "C11", "Hash/HashDAC.cpp", "  uint *bitmap = new uint[b_size];\n  for (size_t i = 0; i < b_size; i++)", "  static uint *bitmap = nullptr; static size_t cap = 0;\n  if (cap < b_size) { delete[] bitmap; bitmap = new uint[b_size]; cap = b_size; }\n  for (size_t i = 0; i < b_size; i++)", "static scratch bitmap shared by block builders"),
 ]
 # M6 needs the lambda to append instead of filling the slot
-M6_EXTRA = (BL, "              parts[next_part_index] = sd;", "              parts.push_back(sd); (void)next_part_index;")
+M2_EXTRA = (W, "      task();\n    }\n    queue_cv.notify_all();", "      task();\n    }")
+M3_EXTRA = (W, "      std::unique_lock<std::mutex> ul(shared_mutex);", "      bool ready = stopped() || !queue.empty();\n      std::unique_lock<std::mutex> ul(shared_mutex);")
+M7_EXTRA = [(BL, "              parts[next_part_index] = sd;", "              parts[next_part_index] = sd;\n              starting_indexes.push_back(first_id);"),
+            (BL, "  bool sample_next = true;", "  bool sample_next = true;\n  unsigned long first_id = 0;"),
+            (BL, "[this, next_part_index, sub_it, overhead, &m, &parts_done, &cv]", "[this, next_part_index, first_id, sub_it, overhead, &m, &parts_done, &cv]")]
 M11_EXTRA = ("Hash/HashDAC.cpp", "  delete[] bitmap;\n  delete[] hashtable;", "  delete[] hashtable;")
-EXTRAS = {"M6": [M6_EXTRA], "M11": [M11_EXTRA]}
+EXTRAS = {"M2": [M2_EXTRA], "M3": [M3_EXTRA], "M7": M7_EXTRA, "M11": [M11_EXTRA]}
